@@ -26,7 +26,7 @@ import (
 )
 
 func init() {
-	hx.Register(&hx.Prop{ID: "C03", Part: "feat", Ops: []string{"bedr", "gffr"}, Gen: c03FeatGen, Exec: c03FeatExec, Shrink: fioShrink})
+	hx.Register(&hx.Prop{ID: "C03", Part: "feat", Ops: []string{"bedr", "gffr", "dt", "dtf"}, Gen: c03FeatGen, Exec: c03FeatExec, Shrink: fioShrink})
 }
 
 func c03FeatExec(input string) string {
@@ -37,6 +37,15 @@ func c03FeatExec(input string) string {
 	case "gffr":
 		data := hx.Unhex(f[1])
 		return fioReadGff(data) + " | " + fioOracles(data)
+	case "dt": // time.Parse(gff.Astronomical, s): "ok <year> <month> <day>" or "err"
+		t, err := time.Parse(gff.Astronomical, string(hx.Unhex(f[1])))
+		if err != nil {
+			return "err"
+		}
+		return fmt.Sprintf("ok %d %d %d", t.Year(), int(t.Month()), t.Day())
+	case "dtf": // Time.Format(gff.Astronomical)
+		t := time.Date(hx.Atoi(f[1]), time.Month(hx.Atoi(f[2])), hx.Atoi(f[3]), 0, 0, 0, 0, time.UTC)
+		return hx.Hex([]byte(t.Format(gff.Astronomical)))
 	}
 	panic("c03 feat: bad input " + input)
 }
@@ -44,7 +53,7 @@ func c03FeatExec(input string) string {
 // fioShrink: drop one line, drop one tab-separated field of one line, drop one byte
 func fioShrink(input string) []string {
 	f := hx.Fields(input)
-	if len(f) < 2 {
+	if len(f) < 2 || f[0] == "dtf" {
 		return nil
 	}
 	data := hx.Unhex(f[len(f)-1])
@@ -400,6 +409,43 @@ func c03FeatGen(g *hx.Gen) {
 				g.Casef("gffr %s", hx.Hex(d))
 			}
 		}
+	}
+
+	// time.Parse / Time.Format with the layout of the ##date line: the fixed list, every month
+	// and month end of leap and other years, and date-like strings under small mutations
+	for _, d := range fioDates {
+		g.Casef("dt %s", hx.Hex([]byte(d)))
+	}
+	for _, y := range []int{0, 1, 4, 100, 400, 1900, 1999, 2000, 2023, 2024, 2100, 9999} {
+		for m := 1; m <= 12; m++ {
+			for _, d := range []int{1, 9, 10, 28, 29, 30, 31} {
+				g.Casef("dt %s", hx.Hex([]byte(fmt.Sprintf("%04d-%d-%02d", y, m, d))))
+				if d <= 28 {
+					g.Casef("dtf %d %d %d", y, m, d)
+				}
+			}
+		}
+	}
+	for k := g.Scale(3000, 60000); k > 0 && !g.Done(); k-- {
+		s := []byte(fmt.Sprintf("%04d-%d-%02d", g.Pick(0, 4, 1900, 2000, 2023, 2024, g.Intn(10000)), g.Range(0, 14), g.Range(0, 33)))
+		if g.Chance(0.3) {
+			s = []byte(fmt.Sprintf("%d-%02d-%d", g.Intn(12000), g.Range(0, 14), g.Range(0, 40)))
+		}
+		for m := g.Pick(0, 0, 1, 1, 2); m > 0 && len(s) > 0; m-- {
+			i := g.Intn(len(s))
+			switch g.Intn(4) {
+			case 0:
+				pool := "0123456789-+ /.x\xef"
+				s[i] = pool[g.Intn(len(pool))]
+			case 1:
+				s = append(s[:i], s[i+1:]...)
+			case 2:
+				s = append(s[:i], append([]byte{"0123456789-+ "[g.Intn(13)]}, s[i:]...)...)
+			case 3:
+				s = s[:i]
+			}
+		}
+		g.Casef("dt %s", hx.Hex(s))
 	}
 
 	// (b) valid files under mutations, (a) arbitrary bytes ---------------------------
